@@ -45,6 +45,8 @@ pub enum Fault {
     /// as an LBA-stamped or never-initialised sector returns), 3 = a ramp starting at 0 in the block,
     /// 4 + b = the constant byte b (a stuck data bus; generalises the all-0x00 / all-0xFF lost write)
     Pattern { kind: u16, off: usize, len: usize },
+    /// two independent faults on one artefact, applied in order
+    Both(Box<Fault>, Box<Fault>),
 }
 
 impl Fault {
@@ -58,6 +60,7 @@ impl Fault {
             Fault::Pattern { kind: 2, .. } | Fault::Pattern { kind: 3, .. } => "address_pattern",
             Fault::Pattern { kind, .. } if *kind >= 4 => "constant_byte_fill",
             Fault::Pattern { .. } => "checkerboard_pattern",
+            Fault::Both(..) => "double_fault",
         }
     }
     fn to_json(&self) -> Value {
@@ -68,6 +71,7 @@ impl Fault {
             Fault::Torn(n) => json!({"kind":"torn_write","n":n}),
             Fault::MultiBit(b) => json!({"kind":"multi_bit_rot","bits":b}),
             Fault::Pattern { kind, off, len } => json!({"kind":"pattern","pattern":kind,"offset":off,"len":len}),
+            Fault::Both(a, b) => json!({"kind":"double_fault","first":a.to_json(),"second":b.to_json()}),
         }
     }
     fn from_json(v: &Value) -> Option<Fault> {
@@ -77,6 +81,7 @@ impl Fault {
             "lost_write" => Fault::Lost(v["value"].as_u64()? as u8),
             "torn_write" => Fault::Torn(v["n"].as_u64()? as usize),
             "pattern" => Fault::Pattern { kind: v["pattern"].as_u64()? as u16, off: v["offset"].as_u64()? as usize, len: v["len"].as_u64()? as usize },
+            "double_fault" => Fault::Both(Box::new(Fault::from_json(&v["first"])?), Box::new(Fault::from_json(&v["second"])?)),
             "multi_bit_rot" => Fault::MultiBit(v["bits"].as_array()?.iter().map(|b| b.as_u64().map(|x| x as usize)).collect::<Option<Vec<_>>>()?),
             _ => return None,
         })
@@ -101,6 +106,10 @@ impl Fault {
                 for b in bits {
                     x[(b / 8) % n] ^= 1 << (b % 8);
                 }
+            }
+            Fault::Both(a, b) => {
+                a.apply(x, other);
+                b.apply(x, other);
             }
             Fault::Pattern { kind, off, len } => {
                 let (lo, hi) = if *len == 0 { (0, n) } else { (off % n, ((off % n) + len).min(n)) };
@@ -914,6 +923,23 @@ pub fn gen_lost_key_history(p: &mut Prng, n_signs: usize) -> Vec<Op> {
     ops
 }
 
+/// Double faults on a delivered signature: its tail (the hint section, omega + k bytes) reads back as an
+/// address-in-data or ramp pattern and one of the last k bytes (the per-polynomial counts) is stuck.
+/// Index `j` enumerates (pattern kind, stuck position, stuck value).
+pub fn gen_double_fault_history(p: &mut Prng, set: &dyn DynSet, j: usize) -> Vec<Op> {
+    let info = set.info();
+    let hl = info.omega + info.k;
+    let vals = [0x00u8, 0x01, 0x02, 0x10, info.omega as u8, 0x7F];
+    let kind = 2 + (j % 2) as u16;
+    let pos = info.sig_len - 1 - (j / 2) % info.k;
+    let val = vals[(j / (2 * info.k)) % vals.len()];
+    let fault = Fault::Both(Box::new(Fault::Pattern { kind, off: info.sig_len - hl, len: hl }), Box::new(Fault::Stuck(pos, val)));
+    vec![
+        Op::Sign { sk: 0, msg: p.bytes(9), ctx: p.bytes(2), mode: *p.pick(&MODES), rnd: p.array32(), via_os: false },
+        Op::Deliver { t: 0, fault: Some((0, fault)) },
+    ]
+}
+
 struct RunOut {
     stats: Stats,
     viols: Vec<Violation>,
@@ -980,17 +1006,22 @@ pub fn run(ctx: &Ctx) -> i32 {
         ("C13", Tier::Thorough) => ctx.scaled(1_500_000),
         _ => 0,
     };
-    let outs = run_indexed((n + n_short + n_ladder + n_bulk + n_lost + n_keyonly) as usize, ctx.workers, |i| {
+    // double faults on delivered signatures: (2 patterns x k positions x 6 values) per parameter set, all enumerated
+    let n_double: u64 = if prop == "C13" { (all.len() * 2 * 8 * 6) as u64 } else { 0 };
+    let outs = run_indexed((n + n_short + n_ladder + n_bulk + n_lost + n_keyonly + n_double) as usize, ctx.workers, |i| {
         let short = (i as u64) >= n && (i as u64) < n + n_short;
         let ladder = (i as u64) >= n + n_short && (i as u64) < n + n_short + n_ladder;
         let bulk = (i as u64) >= n + n_short + n_ladder && (i as u64) < n + n_short + n_ladder + n_bulk;
         let lost = (i as u64) >= n + n_short + n_ladder + n_bulk && (i as u64) < n + n_short + n_ladder + n_bulk + n_lost;
-        let keyonly = (i as u64) >= n + n_short + n_ladder + n_bulk + n_lost;
-        let mut p = Prng::for_run(ctx.seed, if keyonly { "world-keygen" } else if lost { "world-lost-key" } else if ladder { "world-ladder" } else if short { "world-short" } else { "world" }, i as u64);
+        let keyonly = (i as u64) >= n + n_short + n_ladder + n_bulk + n_lost && (i as u64) < n + n_short + n_ladder + n_bulk + n_lost + n_keyonly;
+        let double = (i as u64) >= n + n_short + n_ladder + n_bulk + n_lost + n_keyonly;
+        let mut p = Prng::for_run(ctx.seed, if double { "world-double-fault" } else if keyonly { "world-keygen" } else if lost { "world-lost-key" } else if ladder { "world-ladder" } else if short { "world-short" } else { "world" }, i as u64);
         let set = all[i % all.len()];
         let xi = p.array32();
         let xi_other = p.array32();
-        let ops = if keyonly {
+        let ops = if double {
+            gen_double_fault_history(&mut p, set, (i as u64 - (n + n_short + n_ladder + n_bulk + n_lost + n_keyonly)) as usize / all.len())
+        } else if keyonly {
             Vec::new()
         } else if lost {
             gen_lost_key_history(&mut p, 12)
@@ -1082,7 +1113,7 @@ pub fn run(ctx: &Ctx) -> i32 {
         samples,
         exhaustive: false,
         extra: json!({
-            "histories": n, "short_histories": n_short, "size_ladder_histories": n_ladder, "bulk_signing_histories": n_bulk, "degenerate_stored_key_histories": n_lost, "keygen_only_histories": n_keyonly, "runs": n + n_short + n_ladder + n_bulk + n_lost + n_keyonly,
+            "histories": n, "short_histories": n_short, "size_ladder_histories": n_ladder, "bulk_signing_histories": n_bulk, "degenerate_stored_key_histories": n_lost, "keygen_only_histories": n_keyonly, "double_fault_histories": n_double, "runs": n + n_short + n_ladder + n_bulk + n_lost + n_keyonly + n_double,
             "runs_per_hour": if wall > 0.0 { (n as f64 / wall * 3600.0) as u64 } else { 0 },
             "operations": tot.ops, "signatures_made": tot.signs, "verifications": tot.verifies,
             "loads_from_store": tot.loads, "loads_rejected": tot.rejected_loads, "restarts": tot.restarts,
